@@ -39,6 +39,11 @@ PALETTES = [
 TINY = 2.0 ** -33
 PALETTES.append(dict(C=[[c * TINY for c in row] for row in PALETTES[0]['C']],
                      off=[o * TINY for o in PALETTES[0]['off']], scale=TINY))
+TINY_PAL = len(PALETTES) - 1
+# a palette of INTEGER coefficients handed over as an int64 matrix (what np.array([[2, 0, 10], ...]) gives): every
+# pattern has |det| >= 1.5, so no inverse is an integer matrix
+PALETTES.append(dict(C=[[-2, -3, 3], [3, 2, 3], [-4, 3, 2]], off=[10, -3, 7], dtype='int64'))
+INT_PAL = len(PALETTES) - 1
 N_SEED_PALETTES = 3
 SHAPES = {1: (3,), 2: (3, 4), 3: (2, 3, 4)}
 SHAPES_T = {1: (4,), 2: (4, 3), 3: (3, 2, 4)}      # second shape set, thorough only
@@ -67,6 +72,8 @@ def affine_matrix(pattern, pal):
     m[:n, :n] = np.array(pattern, dtype=float) * np.array(P['C'])[:n, :n]
     m[:n, n] = np.array(P['off'])[:n]
     m[n, n] = 1
+    if P.get('dtype'):
+        m = m.astype(P['dtype'])
     return m
 
 
@@ -74,7 +81,7 @@ def _validate_palettes():
     for ip in range(len(PALETTES)):
         for n in (1, 2, 3):
             for p in patterns(n):
-                m = affine_matrix(p, ip)[:n, :n] / PALETTES[ip].get('scale', 1.0)
+                m = affine_matrix(p, ip)[:n, :n].astype(float) / PALETTES[ip].get('scale', 1.0)
                 if abs(np.linalg.det(m)) < 0.05 or np.linalg.cond(m) > 500:
                     raise core.EngineError('C15 palette %d unusable for pattern %r' % (ip, p))
 
@@ -437,7 +444,8 @@ def all_cases(tier):
             for n in (3, 2, 1):
                 for p in patterns(n):
                     if n < 3 or tier == 'thorough' or sum(map(sum, p)) == 3:
-                        cases.append(dict(kind='affine', pattern=p, palette=len(PALETTES) - 1, shape=list(ss[n])))
+                        cases.append(dict(kind='affine', pattern=p, palette=TINY_PAL, shape=list(ss[n])))
+                        cases.append(dict(kind='affine', pattern=p, palette=INT_PAL, shape=list(ss[n])))
     return cases
 
 
@@ -463,7 +471,7 @@ RULE = ('one case = (coordinate object, shape); inside it every world/pixel axis
 ASSUMPTIONS = [
     'coordinate objects are AffineCoordinates (square, invertible, every coupling pattern for 1-3 dims) and '
     'IdentityCoordinates; astropy WCS / non-square / LegacyCoordinates are outside the bound',
-    'one fixed coefficient palette per run in quick (VERIF_SEED selects 1 of 3 pre-validated palettes), all 3 in thorough',
+    'one fixed coefficient palette per run in quick (VERIF_SEED selects 1 of 3 pre-validated palettes), all 3 in thorough; plus a tiny-magnitude float palette and an integer-dtype (int64 matrix) palette in both tiers',
     'shapes: (3,), (3,4), (2,3,4); thorough adds (4,), (4,3), (3,2,4) for the first palette',
     'link clauses use every view except bare ndarray views (a bare ndarray is splatted by util.join_component_view '
     'before it reaches the link; that behaviour belongs to C04)',
